@@ -13,6 +13,49 @@ MODEL_TRUST = ["modelled, not verified: Go maps and slices as association lists 
                "the MemFS model is hand-written from vfs/memfs/*.go and vfs.go; tied by corr memfs* (call results + internal node graph through the verif hook after every call)"]
 
 PROPS = {
+    "C01": dict(
+        props_files=["Avfs/Props/C01.lean"],
+        parts=[dict(name="memfs"), dict(name="kernel")],
+        trusted=MODEL_TRUST + ["oracle: the Linux kernel through OsFS / package os in a chroot-ed child process on a fresh tmpfs directory (corr kernel): MemFS itself, not the model, is compared call by call and tree by tree"],
+        assumptions=["administrator; Linux emulation; the root directory is not an operand of remove/rename in the kernel comparison (the oracle's scratch root is not a file-system root)", "set-id bits are not generated in the kernel comparison (kernel-specific inheritance / clearing rules)"],
+        not_yet_proved=["MemFS.step = Posix.step (the Lean reference semantics of Linux is not written yet: equality with Linux is carried by the direct impl≟kernel oracle run and its ledger of divergence classes)", "OrefaFS (model not built yet)"],
+    ),
+    "C04": dict(
+        props_files=["Avfs/Props/C04.lean"],
+        parts=[dict(name="memfs"), dict(name="kernel-links")],
+        trusted=MODEL_TRUST + ["oracle: the Linux kernel and filepath.EvalSymlinks in a chroot-ed child on tmpfs"],
+        assumptions=["link chains up to 42 around the budget of 40; random relative / absolute / dangling / cyclic targets"],
+        not_yet_proved=["searchNode ≃ namei (structural kernel-style resolution) — the equality with the kernel is carried by the oracle run", "follow-mode never returns a link; readlink (symlink t n) = clean t as theorems"],
+    ),
+    "C05": dict(
+        props_files=["Avfs/Props/C05.lean"],
+        parts=[dict(name="memfs"), dict(name="memfs-perm"), dict(name="memfs-views")],
+        trusted=MODEL_TRUST + ["wfCheck (the executable invariant) is evaluated by the Lean driver on the node graph dumped from the implementation after every call"],
+        assumptions=["sequential histories (concurrent executions: C06)", "views whose root directory has been removed through another view are outside the theorem (kernel-checked witness C05_detached_view_witness)"],
+        not_yet_proved=["RenameSafe (the path-prefix test of Rename implies the graph condition)", "wfCheck ↔ WF", "frame property (a successful call changes only the entries it names)", "OrefaFS"],
+    ),
+    "C07": dict(
+        props_files=["Avfs/Props/C07.lean"],
+        parts=[dict(name="memfs"), dict(name="memfs-files"), dict(name="path", tags="verif,avfs_setostype")],
+        trusted=MODEL_TRUST,
+        assumptions=["part (a) only: sequential no-panic / no-hang; interleavings (b)(c) are C06/C08 work in progress"],
+        not_yet_proved=["ranked lock acquisition of the real functions (generic theorem ranked_deadlock_free is proved in Avfs/Conc; the per-function rank obligations need the lock-skeleton translator)", "no-panic for OrefaFS, RoFS, BasePathFS, FailFS models"],
+    ),
+    "C10": dict(
+        props_files=["Avfs/Props/C10.lean"],
+        translators=FACTX,
+        parts=[dict(name="bpfs")],
+        trusted=["translator harness/cmd/factx (go/ast, syntactic, fails closed)", "the model of ToBasePath/FromBasePath is hand-written (Avfs/Wrap/BasePath.lean), tied by corr bpfs"],
+        assumptions=["the base contains no symbolic link below the base directory that points outside it (BasePathFS refuses to create links)", "Linux path syntax"],
+        not_yet_proved=["chroot simulation as a theorem (bpfs_sim): carried by the lockstep run against a standalone file system"],
+    ),
+    "C11": dict(
+        props_files=["Avfs/Props/C11.lean"],
+        parts=[dict(name="memfs-views")],
+        trusted=MODEL_TRUST,
+        assumptions=["views are records over one shared heap, as `subFS := *vfs` copies them"],
+        not_yet_proved=["sub_sim (a view behaves as the parent on prefixed paths)", "sub_confined in the graph sense (Desc of the view root)"],
+    ),
     "C02": dict(
         props_files=["Avfs/Props/C02.lean"],
         parts=[dict(name="memfs-files"), dict(name="kernel-files")],
